@@ -247,13 +247,9 @@ Definition site_media_type (t : str) : str := reflow ind4 (ascii_lit t).   (* ov
 (* url_args_generator: Content-Type of a raw bytes body, rendered with !r (repr), then write_block *)
 Definition site_media_repr (pr : N -> bool) (t : str) : str := reflow ind4 (py_repr pr t).
 
-(* dataclass_generator._get_field_default, property whose schema is a named enum:
-   f`{ps.name}.{str(default).upper().replace(-, _).replace(space, _)}` - the text becomes an ATTRIBUTE NAME, unquoted.
-   [site_enum_default_u] takes the already upper-cased text (str.upper is Unicode-aware: supplied by the harness for
-   non-ASCII text); on ASCII text it is [site_enum_default]. *)
-Definition dash_sp_to_us (u : str) : str := map (fun c => if (c =? 45) || (c =? 32) then 95 else c) u.
-Definition site_enum_default_u (upper_t : str) : str := dash_sp_to_us upper_t.
-Definition site_enum_default (t : str) : str := dash_sp_to_us (map upper_ascii t).
+(* dataclass_generator._get_field_default, property whose schema is a named enum: Name(<json.dumps(default,
+   ensure_ascii=False)>) - the enum is called with the VALUE  [fix of F15l]; the literal inside the parentheses: *)
+Definition site_enum_default (t : str) : str := dq (json_raw t).
 
 (* docstring sites  [after the fixes of F15c/d/g/k] *)
 (* documentation_writer.escape_docstring_text: NUL -> space, backslash doubled, then QQQ -> three escaped quotes *)
@@ -399,14 +395,6 @@ Fixpoint isoq (s : str) : bool :=
   end.
 (* comment: CR, NUL/surrogates (LF is replaced) *)
 Definition safe_field_comment (t : str) : bool := no_chars (fun c => (c =? 13) || bad_raw c) t.
-
-(* enum default: the text must be ASCII letters, digits, underscore, dash, space and not start with a digit *)
-Definition safe_enum_default (t : str) : bool :=
-  match t with
-  | [] => false
-  | c :: _ => negb (is_digit c) && forallb (fun c => is_alnum c || (c =? 95) || (c =? 45) || (c =? 32)) t
-  end.
-Definition Inert_ident (f : str -> str) : Prop := forall t, is_ident (f t) = true.
 
 (* executable forms of the per-site statement at rest = [] (used by the correspondence run to predict
    whether a rendered fragment is inert) *)
